@@ -49,8 +49,103 @@ fn check(num: &Fq, den: &Fq, flag: bool, y: &Fq) -> bool {
 /// publishes with too weak an ordering is reported by Miri as a data race.
 static FIRST_CALL_DONE: std::sync::atomic::AtomicBool = std::sync::atomic::AtomicBool::new(false);
 
+fn unhex32(h: &str) -> [u8; 32] {
+    let mut out = [0u8; 32];
+    let b = h.as_bytes();
+    for i in 0..32.min(b.len() / 2) {
+        let d = |c: u8| -> u8 {
+            match c {
+                b'0'..=b'9' => c - b'0',
+                b'a'..=b'f' => c - b'a' + 10,
+                _ => 0,
+            }
+        };
+        out[i] = d(b[2 * i]) << 4 | d(b[2 * i + 1]);
+    }
+    out
+}
+
+/// `lazymiri conv <C02|C03|C11> <seed> <vectors...>`: the cross-target pass of the iosim properties. No threads;
+/// reference vectors ("V:<encoding of k*G>:<k>", "I:<invalid string>") come from the BigUint model through argv.
+fn conv_mode(prop: &str, seed: u64, vectors: &[String]) {
+    use ark_serialize::{CanonicalDeserialize, CanonicalSerialize};
+    use decaf377::{Element, Fr};
+    use std::convert::TryFrom;
+    match prop {
+        "C11" => {
+            conversions_smoke(seed);
+            conversions_smoke(seed.wrapping_mul(0x9E37_79B9).wrapping_add(17));
+            conversions_smoke(!seed);
+        }
+        "C02" | "C03" => {
+            for v in vectors {
+                let parts: Vec<&str> = v.split(':').collect();
+                match parts.as_slice() {
+                    ["V", h, k] => {
+                        let bytes = unhex32(h);
+                        let k: u64 = k.parse().expect("vector scalar");
+                        let want = Element::GENERATOR * Fr::from(k);
+                        if prop == "C02" {
+                            let a = Encoding(bytes).vartime_decompress();
+                            assert!(a.as_ref().ok() == Some(&want), "INVARIANT C02_valid_encoding_decodes_to_kG");
+                            let b = Element::try_from(&bytes[..]);
+                            assert!(b.ok() == Some(want), "INVARIANT C02_try_from_slice");
+                            let c = Element::deserialize_compressed(&bytes[..]);
+                            assert!(c.ok() == Some(want), "INVARIANT C02_stream_decode");
+                            let d = Encoding::try_from(&bytes[..]).ok().and_then(|e| e.vartime_decompress().ok());
+                            assert!(d == Some(want), "INVARIANT C02_encoding_from_slice");
+                        } else {
+                            assert!(want.vartime_compress().0 == bytes, "INVARIANT C03_encoding_of_kG");
+                            // another way of arriving at the same element: repeated addition (Z != 1)
+                            if k <= 8 {
+                                let mut acc = Element::IDENTITY;
+                                for _ in 0..k {
+                                    acc = acc + Element::GENERATOR;
+                                }
+                                assert!(acc.vartime_compress().0 == bytes, "INVARIANT C03_encoding_of_sum");
+                                let neg = -(Element::GENERATOR * Fr::from(k));
+                                let back = -neg;
+                                assert!(back.vartime_compress().0 == bytes, "INVARIANT C03_encoding_of_double_negation");
+                            }
+                            let mut w = Vec::new();
+                            want.serialize_compressed(&mut w).expect("INVARIANT C03_serialize");
+                            assert!(w == bytes.to_vec(), "INVARIANT C03_wire_bytes");
+                            assert!(want.vartime_compress_to_field().to_bytes_le() == bytes, "INVARIANT C03_field_form_bytes");
+                            assert!(bytes[31] >> 5 == 0, "INVARIANT C03_top_bits");
+                        }
+                    }
+                    ["I", h] => {
+                        if prop == "C02" {
+                            let bytes = unhex32(h);
+                            assert!(Encoding(bytes).vartime_decompress().is_err(), "INVARIANT C02_invalid_string_rejected");
+                            assert!(Element::try_from(&bytes[..]).is_err(), "INVARIANT C02_invalid_string_rejected_try_from");
+                            assert!(Element::deserialize_compressed(&bytes[..]).is_err(), "INVARIANT C02_invalid_string_rejected_stream");
+                        }
+                    }
+                    _ => panic!("bad vector argument {:?}", v),
+                }
+            }
+            if prop == "C02" {
+                for l in [0usize, 1, 31, 33, 64] {
+                    let b = vec![0u8; l];
+                    assert!(Element::try_from(&b[..]).is_err(), "INVARIANT C02_wrong_length_rejected");
+                    assert!(Encoding::try_from(&b[..]).is_err(), "INVARIANT C02_wrong_length_rejected_encoding");
+                }
+            }
+        }
+        _ => panic!("unknown property for conv mode"),
+    }
+    println!("ok conv {}", prop);
+}
+
 fn main() {
     let args: Vec<String> = std::env::args().collect();
+    if args.get(1).map(|s| s.as_str()) == Some("conv") {
+        let prop = args.get(2).cloned().unwrap_or_default();
+        let seed: u64 = args.get(3).and_then(|s| s.parse().ok()).unwrap_or(1);
+        conv_mode(&prop, seed, &args[4.min(args.len())..]);
+        return;
+    }
     let wseed: u64 = args.get(1).and_then(|s| s.parse().ok()).unwrap_or(1);
     let threads: usize = args.get(2).and_then(|s| s.parse().ok()).unwrap_or(3);
     let ops: usize = args.get(3).and_then(|s| s.parse().ok()).unwrap_or(1);
